@@ -103,9 +103,13 @@ def run_case(inp):
         if inp.get("irregular"):
             # a first chunk that is not a multiple of the bin size although the largest chunk is
             # (what a lazily cropped or concatenated tomogram looks like)
-            ch = tuple((min(b + 1, s),) + tuple([2 * b] * ((s - min(b + 1, s)) // (2 * b)))
-                       + (((s - min(b + 1, s)) % (2 * b),) if (s - min(b + 1, s)) % (2 * b) else ())
+            lead = 2 * b if inp.get("irregular") == "inner" else 0      # "inner": a divisible first chunk, then the odd one
+            ch = tuple(((lead,) if 0 < lead < s - b - 1 else ()) + (min(b + 1, s - (lead if 0 < lead < s - b - 1 else 0)),)
+                       + tuple([2 * b] * ((s - (lead if 0 < lead < s - b - 1 else 0) - min(b + 1, s - (lead if 0 < lead < s - b - 1 else 0))) // (2 * b)))
+                       + (((s - (lead if 0 < lead < s - b - 1 else 0) - min(b + 1, s - (lead if 0 < lead < s - b - 1 else 0))) % (2 * b),)
+                          if (s - (lead if 0 < lead < s - b - 1 else 0) - min(b + 1, s - (lead if 0 < lead < s - b - 1 else 0))) % (2 * b) else ())
                        for s in a.shape)
+            assert all(sum(c) == s for c, s in zip(ch, a.shape)), (ch, a.shape)
             return da.from_array(a, chunks=ch)
         return da.from_array(a, chunks=tuple(ch))
 
@@ -118,19 +122,33 @@ def run_case(inp):
             else:
                 ld = BatchLoader(order=inp["order"], scale=scale, output_shape=(n,) * 3)
                 ids = [i % ntomo for i in range(len(us))]
+                names = [f"TS_{t + 1:02d}" for t in range(ntomo)] if inp.get("named") else list(range(ntomo))
                 for t in range(ntomo):
                     sel = [i for i in range(len(us)) if ids[i] == t]
-                    ld.add_tomogram(wrap(tomos[t], t), Molecules(pos[sel]), t)
+                    ld.add_tomogram(wrap(tomos[t], t), Molecules(pos[sel]), names[t])
                 ids = sorted(ids)
                 order_idx = [i for t in range(ntomo) for i in range(len(us)) if i % ntomo == t]
                 pos_px = pos_px[order_idx]
+                if inp.get("shuffle"):
+                    # molecules of the tomograms interleaved (a batch after sort / sample / replace)
+                    perm = np.random.default_rng(inp["seed"] + 5).permutation(len(order_idx))
+                    ld = ld.replace(molecules=ld.molecules.subset(perm))
+                    pos_px = pos_px[perm]
+                    ids = [ids[int(k)] for k in perm]
             lb = ld.binning(b, compute=inp["compute"])
         except Exception as e:  # noqa: BLE001
             V("no-error", f"binning({b}, compute={inp['compute']}) raised {type(e).__name__}: {str(e)[:120]}")
             return viols
         if abs(lb.scale - scale * b) > 1e-9:
             V("scale", f"binned scale {lb.scale} != {scale * b}")
-        imgs = [lb.image] if inp["kind"] == "single" else [lb.images[t] for t in range(ntomo)]
+        if inp["kind"] != "single":
+            if sorted(map(str, lb.images.keys())) != sorted(map(str, names)):
+                V("image-ids", f"binned batch has images {sorted(map(str, lb.images.keys()))}, the batch had {sorted(map(str, names))}")
+                return viols
+            if np.abs(lb.molecules.pos - (pos_px - (b - 1) / 2) / b * (scale * b)).max() > 1e-3 * scale * b:
+                V("same-region", "molecule i of the binned batch is not molecule i of the batch (positions differ)")
+                return viols
+        imgs = [lb.image] if inp["kind"] == "single" else [lb.images[names[t]] for t in range(ntomo)]
         for t, im in enumerate(imgs):
             im = np.asarray(im)
             want = _blocksum(tomos[t], b)
@@ -161,8 +179,8 @@ def run_case(inp):
                 return viols
             if abs(twice.scale - once.scale) > 1e-9 or np.abs(twice.molecules.pos - once.molecules.pos).max() > 1e-4 * scale:
                 V("composition", f"binning({b}).binning({b2}) and binning({b * b2}) give different scales / positions")
-            im2 = [twice.image] if inp["kind"] == "single" else [twice.images[t] for t in range(ntomo)]
-            im1 = [once.image] if inp["kind"] == "single" else [once.images[t] for t in range(ntomo)]
+            im2 = [twice.image] if inp["kind"] == "single" else [twice.images[names[t]] for t in range(ntomo)]
+            im1 = [once.image] if inp["kind"] == "single" else [once.images[names[t]] for t in range(ntomo)]
             for x, y in zip(im2, im1):
                 x, y = np.asarray(x), np.asarray(y)
                 if x.shape != y.shape or not np.array_equal(x, y):
@@ -196,6 +214,17 @@ def oracle(rng, thorough, deep=False, hints=None):
                           compute=comp, seed=int(rng.integers(0, 10 ** 6)), mixed=True, irregular=False))
         cases.append(dict(kind="single", ntomo=1, b=b, n=n, shape=shape, scale=0.5, order=1, nmol=3, chunks=[16, 16, 16],
                           compute=False, seed=int(rng.integers(0, 10 ** 6)), mixed=False, irregular=True))
+    # always: an odd INNER chunk behind a divisible first one; batches with named image ids and interleaved molecules
+    for b in (3, 2):
+        n = 3
+        shape = [b * (n + 6) + 2] * 3
+        cases.append(dict(kind="single", ntomo=1, b=b, n=n, shape=shape, scale=1.0, order=0, nmol=3, chunks=[16, 16, 16],
+                          compute=bool(b % 2), seed=int(rng.integers(0, 10 ** 6)), mixed=False, irregular="inner"))
+        cases.append(dict(kind="batch", ntomo=2, b=b, n=n, shape=shape, scale=[1.0, 0.5][b % 2], order=0, nmol=5, chunks=None if b == 2 else [16, 16, 16],
+                          compute=bool(b % 2), seed=int(rng.integers(0, 10 ** 6)), mixed=False, irregular="inner" if b == 3 else False,
+                          named=bool(b == 2), shuffle=True))
+        cases.append(dict(kind="batch", ntomo=3, b=b, n=n, shape=shape, scale=1.0, order=1, nmol=6, chunks=None,
+                          compute=False, seed=int(rng.integers(0, 10 ** 6)), mixed=False, irregular=False, named=True, shuffle=False))
     viols, stats = [], {"by_b": {}, "dask": 0, "batch": 0, "samples": [{"oracle_case": c} for c in cases[:2]]}
     for c in cases:
         stats["by_b"][c["b"]] = stats["by_b"].get(c["b"], 0) + 1
